@@ -40,6 +40,25 @@ def run : List Tx → Content
 def Content.same (a b : Content) : Prop :=
   a.nodes = b.nodes ∧ (∀ e, e ∈ a.edges ↔ e ∈ b.edges) ∧ (∀ q, q ∈ a.props ↔ q ∈ b.props)
 
+/-! ### crash histories
+
+One incarnation of the process contributes the commits it acknowledged, and possibly one commit
+that was in flight when it died.  After the crash the database holds what it held before, plus the
+acknowledged commits, plus — entirely or not at all — the commit in flight. -/
+
+structure RoundObs where
+  acked : List Tx
+  inflight : Option Tx
+deriving Repr, Inhabited
+
+/-- `Admissible T0 rounds T`: starting from content `T0`, the rounds may leave content `T` -/
+inductive Admissible : List Tx → List RoundObs → List Tx → Prop
+  | done (T : List Tx) : Admissible T [] T
+  | lost {T T' : List Tx} {a : List Tx} {i : Option Tx} {rest : List RoundObs} :
+      Admissible (T ++ a) rest T' → Admissible T (⟨a, i⟩ :: rest) T'
+  | survived {T T' : List Tx} {a : List Tx} {tx : Tx} {rest : List RoundObs} :
+      Admissible (T ++ a ++ [tx]) rest T' → Admissible T (⟨a, some tx⟩ :: rest) T'
+
 /-! ### outcome language of the crash / fault streams
 
 A scenario is observed through the results of its operations.  `vis` = transactions visible in
